@@ -536,3 +536,53 @@ Proof.
       by (rewrite offsets_from_length; lia).
     now apply seg_shift.
 Qed.
+
+(* ---------- summary: what an encoded file looks like ---------- *)
+
+Definition file_enc (dt : dtype) (a : arr4) (g : geom) (W : list N) (chans : list (list N)) : Prop :=
+  let gx := grid_x a g in let gy := grid_y a g in let gz := grid_z a g in
+  W = offsets_from (a_c a) chans ++ concat chans /\ lenN chans = a_c a /\ w32 W /\
+  forall c, c < a_c a ->
+    2 * (gx * gy * gz) <= lenN (nthN chans c []) /\
+    forall zb yb xb, zb < gz -> yb < gy -> xb < gx ->
+      exists pad,
+        Forall (fun v => v < dt_bound dt) (block_padded a g c zb yb xb pad) /\
+        blk_enc dt (nthN chans c []) (xb + gx * (yb + gy * zb)) (block_padded a g c zb yb xb pad).
+
+Lemma encode_words_file_enc dt a g W :
+  wf_arr (dt_bound dt) a -> encode_words dt a g = Ok W -> exists chans, file_enc dt a g W chans.
+Proof.
+  intros Hwf E. destruct (encode_words_layout dt a g W Hwf E) as (chans & EW & Hlen & Hw & Hch).
+  exists chans. unfold file_enc. cbv zeta.
+  split; [exact EW|]. split; [exact Hlen|]. split; [exact Hw|].
+  intros c Hc. specialize (Hch c Hc).
+  destruct (encode_channel_enc dt a g c _ Hwf Hch) as (_ & Hl & vl & HF & Hblk).
+  split; [exact Hl|].
+  intros zb yb xb Hz Hy Hx.
+  set (gx := grid_x a g) in *. set (gy := grid_y a g) in *. set (gz := grid_z a g) in *.
+  assert (Hk : xb + gx * (yb + gy * zb) < gx * gy * gz).
+  { assert (yb + gy * zb + 1 <= gy * gz) by nia. nia. }
+  assert (Hk' : xb + gx * (yb + gy * zb) < lenN (block_coords gz gy gx)).
+  { rewrite block_coords_length. lia. }
+  assert (R := Forall2_nthN _ _ _ _ (0, 0, 0) [] HF Hk'). cbv beta in R.
+  rewrite block_coords_nth in R by assumption.
+  assert (Hb := block_vals_bound dt a g c _ _ Hwf R).
+  destruct (block_vals_form _ _ _ _ _ _ _ R) as (pad & Ev & _).
+  exists pad. rewrite <- Ev. split; [exact Hb|]. apply Hblk. exact Hk.
+Qed.
+
+Lemma cseg_encode_file_enc dt nc g a buf :
+  wf_arr (dt_bound dt) a -> cseg_encode dt nc g a = Ok buf ->
+  a_c a = nc /\ g_bx g <> 0 /\ g_by g <> 0 /\ g_bz g <> 0 /\
+  exists W chans, buf = bytes_of_words W /\ file_enc dt a g W chans.
+Proof.
+  intros Hwf E. unfold cseg_encode in E.
+  destruct (N.eqb_spec (a_c a) nc) as [Hc|]; [|discriminate]. cbn [negb] in E.
+  destruct (N.eqb_spec (g_bx g) 0); [discriminate|].
+  destruct (N.eqb_spec (g_by g) 0); [discriminate|].
+  destruct (N.eqb_spec (g_bz g) 0); [discriminate|]. cbn [orb] in E.
+  destruct (encode_words dt a g) as [W| | | | | |] eqn:EW; try discriminate. cbn [bind] in E.
+  inversion E; subst buf.
+  destruct (encode_words_file_enc dt a g W Hwf EW) as (chans & Hf).
+  repeat (split; [assumption|]). exists W, chans. split; [reflexivity|exact Hf].
+Qed.
